@@ -141,10 +141,11 @@ pub fn build(r: &mut Rng, kind: ConnKind, client: Endpoint, server: Endpoint, o:
             // connection may contain a frame above the default limit before its HEADERS
             let announce = kind == ConnKind::Http2Hostile && r.chance(1, 2);
             let big = if kind == ConnKind::Http2 && r.chance(1, 5) { Some(r.urange(16385, 30000)) } else { None };
-            let (rq, _) = http2::connection_start(r, &http2::Opts { request: true, hostile: if announce { http2::Hostile::None } else { hostile }, fancy_headers: false, odd_order: false, self_ref, continuation: false, big_frame: big, announce_max_frame: announce, huge_block: 0 });
+            let busy = if kind == ConnKind::Http2 && r.chance(1, 16) { r.urange(90, 200) } else { 0 };
+            let (rq, _) = http2::connection_start(r, &http2::Opts { request: true, hostile: if announce { http2::Hostile::None } else { hostile }, fancy_headers: false, odd_order: false, self_ref, continuation: false, big_frame: big, announce_max_frame: announce, huge_block: 0, extra_streams: busy });
             let hostile_s = if kind == ConnKind::Http2Hostile && r.chance(1, 2) { *r.pick(&[http2::Hostile::SizeZero, http2::Hostile::SizeZeroThenBogus]) } else { http2::Hostile::None };
             let self_ref_s = kind == ConnKind::Http2 && r.chance(1, 2);
-            let (rs, _) = http2::connection_start(r, &http2::Opts { request: false, hostile: hostile_s, fancy_headers: false, odd_order: false, self_ref: self_ref_s, continuation: false, big_frame: None, announce_max_frame: false, huge_block: 0 });
+            let (rs, _) = http2::connection_start(r, &http2::Opts { request: false, hostile: hostile_s, fancy_headers: false, odd_order: false, self_ref: self_ref_s, continuation: false, big_frame: None, announce_max_frame: false, huge_block: 0, extra_streams: 0 });
             (rq, rs)
         }
         ConnKind::TlsThenHttpResponse => {
@@ -260,6 +261,24 @@ pub fn endpoints(r: &mut Rng, n: usize, v6: bool) -> Vec<(Endpoint, Endpoint)> {
             continue;
         }
         out.push((c, s));
+    }
+    // key neighbours: one set in three has a connection whose 4-tuple is a component mix of another's (hosts
+    // swapped with one port used on both sides, or the same hosts with one port doubled) - what a flow key built
+    // with a slipped index or a half-sorted tuple would confuse with it
+    if out.len() >= 2 && r.chance(1, 3) {
+        let i = r.usize_below(out.len());
+        let (c, s) = out[i];
+        let ep = |ip: std::net::IpAddr, port: u16| Endpoint { ip, port };
+        let nb = match r.below(4) {
+            0 => (ep(s.ip, s.port), ep(c.ip, s.port)),
+            1 => (ep(s.ip, c.port), ep(c.ip, c.port)),
+            2 => (ep(c.ip, s.port), ep(s.ip, s.port)),
+            _ => (ep(c.ip, c.port), ep(s.ip, c.port)),
+        };
+        let j = (i + 1 + r.usize_below(out.len() - 1)) % out.len();
+        if nb.0 != nb.1 && !out.iter().enumerate().any(|(k, (a, b))| k != j && ((*a == nb.0 && *b == nb.1) || (*a == nb.1 && *b == nb.0))) {
+            out[j] = nb;
+        }
     }
     out
 }
